@@ -202,6 +202,34 @@ func JoinTokens(r *Rng, toks []string, mode int) string {
 	return sb.String()
 }
 
+// DuplicateInGroup makes one exactly-one group of f list one of its variables twice (a group of >= 2 names is
+// needed); it reports whether it did. What such a group means is not documented: the callers judge those
+// formulas by the library's own Eval instead of the reference semantics.
+func DuplicateInGroup(r *Rng, f *ref.F) bool {
+	var groups []*ref.F
+	var walk func(g *ref.F)
+	walk = func(g *ref.F) {
+		if g.Op == "uniq" && len(g.Names) >= 2 {
+			groups = append(groups, g)
+		}
+		for _, k := range g.Kids {
+			walk(k)
+		}
+	}
+	walk(f)
+	if len(groups) == 0 {
+		return false
+	}
+	g := groups[r.Intn(len(groups))]
+	i := r.Intn(len(g.Names))
+	j := (i + 1 + r.Intn(len(g.Names)-1)) % len(g.Names)
+	g.Names[j] = g.Names[i]
+	if r.Chance(1, 3) { // one more copy at the end
+		g.Names = append(g.Names, g.Names[i])
+	}
+	return true
+}
+
 // RandomGroupFormula draws a formula holding several large exactly-one groups over overlapping variable
 // sets (same variables in another order, same first / last variable and size, shifted windows, as the rows,
 // columns and boxes of a grid puzzle do), conjoined with a few literals or clauses. Groups stay in positive
